@@ -238,6 +238,6 @@ META = {
 
 
 # sentences appended to the level texts by later rounds (kept apart so that the original texts stay readable)
-ADDENDA = {'C01': ' Round 9: a scan step that emits a text shorter than the match continues at the end of exactly that text (TOK-12, abstract state on the CFG of the scan loop). Round 10: every compiled lexical pattern is blind to the spelling of line breaks (RX-13, regular-language inclusion of the LF->CRLF / CR image). Round 11: TOK-12 also covers text that goes into a pending prefix and a continuation at the end of the line. Round 14: the source text is only decoded and cut into lines on its way to the tokenizer (SRC-1).', 'C09': ' Round 9: TOK-12 (emitted text vs. scan position), RX-12 (the BOM is recognised only with startswith / whole-value comparison), NORM-13 (split_prefix gets a start computed from that leaf). Round 10: RX-13; POS-1 (no offset recovered by searching for the text). Round 12: TOK-13. Round 13: RX-14 (no exponentially ambiguous pattern), TOK-14 (first-line block), TOK-5 (epilogue positions).', 'C03': ' Round 9: RX-12 (the BOM constant is never searched for inside text). Round 10: POS-1 (no offset recovered by searching for the text). Round 13: the first-line block of the tokenizer (BOM, start column) runs for the first line on every path (TOK-14).', 'C11': ' Round 9: leaf classes with the single-line end_pos (the key of the position lookup) receive no token kind whose text can contain a line break (TREE-8). Round 14: no pickling / copying hook in the tree hierarchy rebuilds parent links (TREE-4).', 'C13': ' Round 9: every exception class a codec probe of the string checks may raise is caught (EXC-3, exception-escape analysis); NORM-13. Round 11: IDX-1. Round 13: LOOP-1 (a value computed for one element of a loop is not used for the next).', 'C16': ' Round 9: a temporary file that is renamed onto the pickle is private to the entry (CACHE-4). Round 11: entries are pickled verbatim (CACHE-9); the pickle write does not depend on the cache file that is already there (CACHE-10). Round 13: the mtime handed to the cache is sampled on every way to a save of a file with a path (CACHE-3). Round 14: an outdated in-memory entry ends the lookup (CACHE-2); the in-memory entry is stored on every way through the save (CACHE-10); cache.py keeps no module-level state besides parser_cache (CACHE-12).', 'C17': ' Round 9: no file is memory-mapped (CACHE-8: truncation by a concurrent writer would be SIGBUS); CACHE-4 private temporary. Round 11: CACHE-9, CACHE-10. Round 14: CACHE-12 (nothing is remembered about the file system), CACHE-10 (store).', 'C19': ' Round 9: every return of the default Normalizer.visit is the leaf rendering or the join of all children (TREE-5). Round 11: an activation-local memo stores under a key only what the key determines (LMEMO-1). Round 13: TREE-1 is limited to the tree modules (constructors).', 'C20': ' Round 9: NORM-13 (a prefix is split with a start position computed from its own leaf). Round 11: no constant index into a freshly filtered list (IDX-1). Round 13: leaf text is taken for an operator, with a sibling then addressed by index arithmetic, only on operator / keyword leaves (TC-1 over pep8.py; F22); every walk up the indentation stack stops at the root (NORM-14; F23); LOOP-1. Round 14: the order of indentation-stack changes and their tokens (TOK-4): the listing is the same for a fresh and an incremental tree.', 'C10': ' Round 10: RX-13 (every compiled pattern of the tokenizer is blind to the spelling of line breaks). Round 12: no tokenizer state outlives a call (EFF-1 from tokenize / tokenize_lines).', 'C02': ' Round 10: the INDENT / DEDENT counting of the recovering parser is not reachable from error_recovery, which re-feeds tokens (PAR-14). Round 12: the indentation of a logical line is decided once (TOK-13, fact-sensitive path search). Round 13: no lexical pattern is exponentially ambiguous (RX-14, Weber-Seidl criterion on the product automaton): matching terminates in practice.', 'C07': ' Round 10: PAR-14. Round 13: the zero-width tokens of the tokenizer epilogue stand at the position of the ENDMARKER (TOK-5). Round 14: the error_recovery argument of Grammar.parse reaches the parser constructor only (PAR-6c).', 'C04': ' Round 9/10: chains of step-into-the-last-child tests are closed under the grammar (WRAP-1: decorated -> async_funcdef -> funcdef). Round 13: versions that share a grammar text (one diff-cache slot) tokenize alike (GR-9). Round 14: the cache entry the next incremental parse starts from is stored on every way through try_to_save_module (CACHE-10).', 'C06': ' Round 10: no parser state outlives a parse (EFF-1 from Grammar.parse): a valid sentence parses the same after any history. Round 13: node classes are registered under the rule they are named after (GR-7). Round 14: SRC-1 (the text of a parse is not transformed before it is tokenized).', 'C15': ' Round 10: the position code of the tree modules counts \\\\n and \\\\r alike (RX-10), for "the same line count as the positions in the tree". Round 13: compile flags of the declaration pattern are honoured; of two declarations the first wins (lazy optional first line, RX-5).', 'C18': " Round 11: classes instantiated only while a memo is built count as shared (EFF-1 inventory); LMEMO-1. Round 13: in-place operators on aliases of shared objects are writes; helpers of a memo function may only write the memo's own container (EFF-1).", 'C14': ' Round 12: GR-8a by role - every scope search descends through a table that contains every node type from which its targets are reachable. Round 13: LOOP-1 (a value computed for one element of a loop is not used for the next) over the tree modules.', 'C08': ' Round 12: the tables are a function of the arguments alone (EFF-1 from generate_grammar). Round 13: the LL(1) analysis of the shipped grammar files moved to C06 / C02 (a grammar file cannot break the generator).', 'C05': ' Round 13: a tree served from the cache was built by the grammar that is asked (CACHE-1, first-level key).'}
+ADDENDA = {'C01': ' Round 9: a scan step that emits a text shorter than the match continues at the end of exactly that text (TOK-12, abstract state on the CFG of the scan loop). Round 10: every compiled lexical pattern is blind to the spelling of line breaks (RX-13, regular-language inclusion of the LF->CRLF / CR image). Round 11: TOK-12 also covers text that goes into a pending prefix and a continuation at the end of the line. Round 14: the source text is only decoded and cut into lines on its way to the tokenizer (SRC-1).', 'C09': ' Round 9: TOK-12 (emitted text vs. scan position), RX-12 (the BOM is recognised only with startswith / whole-value comparison), NORM-13 (split_prefix gets a start computed from that leaf). Round 10: RX-13; POS-1 (no offset recovered by searching for the text). Round 12: TOK-13. Round 13: RX-14 (no exponentially ambiguous pattern), TOK-14 (first-line block), TOK-5 (epilogue positions).', 'C03': ' Round 9: RX-12 (the BOM constant is never searched for inside text). Round 10: POS-1 (no offset recovered by searching for the text). Round 13: the first-line block of the tokenizer (BOM, start column) runs for the first line on every path (TOK-14).', 'C11': ' Round 9: leaf classes with the single-line end_pos (the key of the position lookup) receive no token kind whose text can contain a line break (TREE-8). Round 14: no pickling / copying hook in the tree hierarchy rebuilds parent links (TREE-4).', 'C13': ' Round 9: every exception class a codec probe of the string checks may raise is caught (EXC-3, exception-escape analysis); NORM-13. Round 11: IDX-1. Round 13: LOOP-1 (a value computed for one element of a loop is not used for the next).', 'C16': ' Round 9: a temporary file that is renamed onto the pickle is private to the entry (CACHE-4). Round 11: entries are pickled verbatim (CACHE-9); the pickle write does not depend on the cache file that is already there (CACHE-10). Round 13: the mtime handed to the cache is sampled on every way to a save of a file with a path (CACHE-3). Round 14: an outdated in-memory entry ends the lookup (CACHE-2); the in-memory entry is stored on every way through the save (CACHE-10); cache.py keeps no module-level state besides parser_cache (CACHE-12).', 'C17': ' Round 9: no file is memory-mapped (CACHE-8: truncation by a concurrent writer would be SIGBUS); CACHE-4 private temporary. Round 11: CACHE-9, CACHE-10. Round 14: CACHE-12 (nothing is remembered about the file system), CACHE-10 (store).', 'C19': ' Round 9: every return of the default Normalizer.visit is the leaf rendering or the join of all children (TREE-5). Round 11: an activation-local memo stores under a key only what the key determines (LMEMO-1). Round 13: TREE-1 is limited to the tree modules (constructors).', 'C20': ' Round 9: NORM-13 (a prefix is split with a start position computed from its own leaf). Round 11: no constant index into a freshly filtered list (IDX-1). Round 13: leaf text is taken for an operator, with a sibling then addressed by index arithmetic, only on operator / keyword leaves (TC-1 over pep8.py; F22); every walk up the indentation stack stops at the root (NORM-14; F23); LOOP-1. Round 14: the order of indentation-stack changes and their tokens (TOK-4): the listing is the same for a fresh and an incremental tree.', 'C10': ' Round 10: RX-13 (every compiled pattern of the tokenizer is blind to the spelling of line breaks). Round 12: no tokenizer state outlives a call (EFF-1 from tokenize / tokenize_lines). Round 14: the dispatch of tokenize_lines types as NUMBER exactly what the Number pattern matches (TOK-15, boolean formula over regular languages of the token text).', 'C02': ' Round 10: the INDENT / DEDENT counting of the recovering parser is not reachable from error_recovery, which re-feeds tokens (PAR-14). Round 12: the indentation of a logical line is decided once (TOK-13, fact-sensitive path search). Round 13: no lexical pattern is exponentially ambiguous (RX-14, Weber-Seidl criterion on the product automaton): matching terminates in practice. Round 14: the parser modules call no recursive tree method other than get_last_leaf (PAR-15).', 'C07': ' Round 10: PAR-14. Round 13: the zero-width tokens of the tokenizer epilogue stand at the position of the ENDMARKER (TOK-5). Round 14: the error_recovery argument of Grammar.parse reaches the parser constructor only (PAR-6c).', 'C04': ' Round 9/10: chains of step-into-the-last-child tests are closed under the grammar (WRAP-1: decorated -> async_funcdef -> funcdef). Round 13: versions that share a grammar text (one diff-cache slot) tokenize alike (GR-9). Round 14: the cache entry the next incremental parse starts from is stored on every way through try_to_save_module (CACHE-10).', 'C06': ' Round 10: no parser state outlives a parse (EFF-1 from Grammar.parse): a valid sentence parses the same after any history. Round 13: node classes are registered under the rule they are named after (GR-7). Round 14: SRC-1 (the text of a parse is not transformed before it is tokenized).', 'C15': ' Round 10: the position code of the tree modules counts \\\\n and \\\\r alike (RX-10), for "the same line count as the positions in the tree". Round 13: compile flags of the declaration pattern are honoured; of two declarations the first wins (lazy optional first line, RX-5).', 'C18': " Round 11: classes instantiated only while a memo is built count as shared (EFF-1 inventory); LMEMO-1. Round 13: in-place operators on aliases of shared objects are writes; helpers of a memo function may only write the memo's own container (EFF-1).", 'C14': " Round 12: GR-8a by role - every scope search descends through a table that contains every node type from which its targets are reachable. Round 13: LOOP-1 (a value computed for one element of a loop is not used for the next) over the tree modules. Round 14: a loop over a node's children that breaks at the first child of another type loses no later child of the wanted type (BRK-1, grammar shape model).", 'C08': ' Round 12: the tables are a function of the arguments alone (EFF-1 from generate_grammar). Round 13: the LL(1) analysis of the shipped grammar files moved to C06 / C02 (a grammar file cannot break the generator).', 'C05': ' Round 13: a tree served from the cache was built by the grammar that is asked (CACHE-1, first-level key).'}
 
 TECH_ADDENDA = {'C01': ' + abstract (token text, scan position) state on the CFG of the scan loop', 'C09': ' + abstract (token text, scan position) state on the CFG of the scan loop + BOM API-ban lint + regex ambiguity analysis', 'C13': ' + exception-escape analysis of the codec probes', 'C15': ' + binary-read / who-may-decode rule on the source acquisition path + ordered-choice preference of the optional first line', 'C17': ' + definite assignment over cache.py + memory-mapping ban', 'C11': ' + language emptiness (line breaks) of token kinds mapped to single-line leaf classes', 'C10': ' + homomorphic-image inclusion (line-break spellings) on the compiled patterns', 'C04': ' + grammar-derived wrapper-closure of unwrap chains', 'C02': ' + call-graph reachability (token re-feed vs. indent bookkeeping) + regex ambiguity analysis (product automaton, SCC)', 'C06': ' + effect analysis from Grammar.parse', 'C14': ' + loop-carried value dataflow on the CFG', 'C20': ' + leaf-category rule over pep8.py + None-guarded parent-chain walks', 'C16': ' + must-pass-through (mtime sample before every save)', 'C03': ' + must-pass-through (first-line block)', 'C07': ' + epilogue token positions'}
